@@ -1,7 +1,9 @@
 //! verification harness for DanielT/autosar-data (runtime monitoring)
 #![allow(clippy::too_many_arguments, clippy::type_complexity, clippy::collapsible_if, clippy::collapsible_else_if)]
 pub mod c01;
+pub mod c08;
 pub mod c14perm;
+pub mod c17;
 pub mod c18;
 pub mod c19;
 pub mod c20;
